@@ -142,6 +142,18 @@ impl Check for C14 {
         tier.pick(6, 48)
     }
     fn run_case(&self, cx: &mut Cx) {
+        // the number of chunk downloads a client runs at once is read from the environment once per process: each shard
+        // process picks one setting (shards 0/1: unset; then 0, 1, 3, 64 ...) before the first read
+        static BATCH: std::sync::OnceLock<String> = std::sync::OnceLock::new();
+        let setting = BATCH.get_or_init(|| {
+            let shard = (cx.index % LANE_BASE) % 16;
+            let v = ["unset", "unset", "0", "0", "1", "1", "3", "3", "64", "64", "unset", "unset", "2", "2", "0", "0"][shard as usize];
+            if v != "unset" {
+                std::env::set_var("CHUNK_DOWNLOAD_BATCH_SIZE", v);
+            }
+            v.to_string()
+        });
+        cx.count(&format!("download-batch-size:{setting}"));
         if cx.index >= LANE_BASE {
             return crate::realcases::c14_case(cx);
         }
